@@ -5,7 +5,7 @@
    meas_sound_b, text_meas_b, not_wrapped_b.  Only property theorems live here. *)
 From RichModel Require Import Prelude Cells Segments Ratio Frames Layout SpecLayout.
 From RichModel Require Table Wrap.
-From RichProofs Require Import LayoutP LayoutP2 LayoutP3 LayoutP4 LayoutP5 LayoutP6 LayoutP7.
+From RichProofs Require Import LayoutP LayoutP2 LayoutP8 LayoutP3 LayoutP4 LayoutP5 LayoutP6 LayoutP7.
 
 (* (1) 0 <= minimum <= maximum <= available width: for EVERY renderable tree (objects without a measure
    method and __rich__ casts included), every available width >= 0, unconditionally ... *)
@@ -29,19 +29,17 @@ Example C09_get_normalised_nonvacuous :
 Proof. vm_compute. repeat split; reflexivity. Qed.
 
 (* (2) Rendering at the reported maximum, and at the reported minimum, yields no line wider than that value,
-   for values at or above the structural minimum.
-   FULL STATEMENT: as below with wrappable' (no restriction on Align's child, see props/C01.v).
-   PROVED: for every tree in `wrappable` -- all nestings to any depth incl. Tbl / Cols with arbitrary cells
-   (no cell contract is needed: cells are cropped by render_lines), except an Align directly over a table
-   spine; it is C01_render_fits_partial at W = maximum and at W = minimum.  Monotonicity of the table
-   measurement in the available width (expected in DESIGN to block nesting) is not needed at all. *)
-Theorem C09_measure_sound_partial : forall cf r avail mn mx Lmx Lmn,
+   for values at or above the structural minimum: every tree of the option domain `wrappable` -- all nestings
+   to any depth incl. Tbl / Cols with ARBITRARY cells.  It is C01_render_fits at W = maximum and W = minimum;
+   the cell contract and the monotonicity of the table measurement in the available width that DESIGN
+   expected to need are not needed (cells are cropped by render_lines). *)
+Theorem C09_measure_sound : forall cf r avail mn mx Lmx Lmn,
   wrappable r = true -> mx <= cW cf ->
   measure cf r avail = Ok (mn, mx) ->
   render cf r ro0 mx = Ok Lmx -> render cf r ro0 mn = Ok Lmn ->
   meas_sound_b (smin r) (mn, mx) (map line_text Lmx) (map line_text Lmn) = true.
 Proof. exact measure_sound. Qed.
-Print Assumptions C09_measure_sound_partial.
+Print Assumptions C09_measure_sound.
 
 Example C09_measure_sound_nonvacuous :
   let r := Panel (Txt (lit "hello wide world") None None None) (mkPanel 12 true false false [] 1 false None (0, 1, 0, 1) None None) in
